@@ -35,6 +35,7 @@ func runC13(w *core.World, r *core.Report) {
 	r.Rule("R2", "Put/Get: every path after the opener's success passes a closer; commit errors reach the caller")
 	r.Rule("R3", "local transactions (Dump, ensureTable): ended on every path; failure edge does not touch the handle")
 	r.Rule("R4", "Abort/Stop/Close: stored handle dereferenced only behind a non-nil test")
+	r.Rule("R9", "the stored transaction handle is forgotten (tx = nil) only after a Commit or Rollback on every path")
 	r.Rule("R8", "a back end that declares one of Start/Stop/Abort itself declares all three (none falls back to DbBase's no-op)")
 	r.Rule("R7", "no new transaction after a rollback in the same operation")
 	r.Rule("R5", "multi set only after the opener succeeded; stopSingle commits only when multi is false")
@@ -476,7 +477,16 @@ func runC13(w *core.World, r *core.Report) {
 					// second closer is only reached on the failure edge of the first one's error
 					if xc, ok := x.(*ssa.Call); ok && strings.HasSuffix(core.CallName(xc), ".Commit") {
 						if ev := callErr(xc); ev != nil {
-							if edges := errNonNilEdges(ev); len(edges) > 0 {
+							edges := errNonNilEdges(ev)
+							// the error may be carried in a variable that an earlier step also assigns (a phi)
+							for v := range core.Forward(ev, nil) {
+								for _, ce := range core.NilTestEdges(v) {
+									if !ce.Val {
+										edges = append(edges, ce.E)
+									}
+								}
+							}
+							if len(edges) > 0 {
 								if must, _ := core.MustPass(y, core.NewCut().AddEdge(edges...)); must && strings.HasSuffix(core.CallName(y.(ssa.CallInstruction)), ".Rollback") {
 									continue
 								}
@@ -631,6 +641,7 @@ func runC13(w *core.World, r *core.Report) {
 	// ---- R7 / R8 ------------------------------------------------------------------------------
 	checkNoReopenAfterRollback(w, r, "R7", fns, openers, closers)
 	checkTxMethodsDeclaredTogether(w, r, "R8")
+	checkHandleClearedAfterCloser(w, r, "R9")
 }
 
 // isNamedResult: fn declares a named result with this name (only then does an assignment made in a
